@@ -13,7 +13,6 @@ BT = "chameleon.template.BaseTemplate."
 # reads on the compile path that legitimately are not part of the key
 EXEMPT = {
     "filename": "hashed by BaseTemplate.digest",
-    "content_type": "derived from the body (sniffing), which is hashed",
     "content_encoding": "derived from the body",
     "loader": "where the module is stored, not what it contains",
     "debug": "adds a header comment to the stored source only",
@@ -30,7 +29,8 @@ EXEMPT = {
     "package_name": "file location",
     "auto_reload": "reload policy",
     "default_encoding": "decoding of the body, which is hashed decoded",
-    "default_content_type": "fallback of content_type (derived from body)",
+    "default_content_type": "only read to compute content_type, which is "
+                            "hashed",
     "__dict__": "instance dictionary (config plumbing)",
     "__class__": "class name is hashed",
 }
@@ -266,14 +266,70 @@ def _coverage(repo, rep):
     # the key also covers body, class, filename, builtin names, versions
     d = repo.func(BT + "digest")
     t = L.text(d.node)
-    for need, what in (("sha.update(body.encode('utf-8', 'ignore'))",
-                        "the template source"),
-                       ("sha.update(class_name)", "the template class"),
-                       ("get_pkg_digest()", "the installed package versions"),
+    for need, what in (("get_pkg_digest()", "the installed package versions"),
                        ("os.path.splitext(filename)[0] + '-' + digest",
                         "the file name")):
         rep.check(need in t, "R15.1", d.qualname, "the key covers %s" % what,
                   construct="base:" + what, where=L.where(d))
+    # what goes into the hash, in order: an injective encoding of (class,
+    # file name, body) -- every field but the last has a terminator that
+    # cannot occur in it, the body (arbitrary text) comes last, and the text
+    # encoding loses nothing
+    ups = [n for st in d.node.body for n in ast.walk(st)
+           if isinstance(n, ast.Call) and isinstance(n.func, ast.Attribute)
+           and n.func.attr == "update" and n.args]
+    ups.sort(key=lambda n: (n.lineno, n.col_offset))
+    fields = []
+    for u in ups:
+        e = L.inline_locals(d.node, u.args[0])
+        t_ = src(e).replace(" ", "")
+        kind = "body" if "body" in t_ else \
+            "class" if "__name__" in t_ else \
+            "filename" if "filename" in t_ else "other"
+        term = isinstance(e, ast.BinOp) and isinstance(e.op, ast.Add) and \
+            isinstance(e.right, ast.Constant) and e.right.value in (
+                b"\n", b"\0", b";")
+        lossy = any(isinstance(c, ast.Call) and isinstance(
+            c.func, ast.Attribute) and c.func.attr == "encode" and any(
+                isinstance(a, ast.Constant) and a.value in (
+                    "ignore", "replace") for a in c.args)
+            for c in ast.walk(e))
+        fields.append((kind, term, lossy, src(u)[:70]))
+    kinds = [k for k, _, _, _ in fields]
+    rep.check("body" in kinds and "class" in kinds, "R15.1", d.qualname,
+              "the key covers the template source and the template class",
+              construct="base:source-and-class", where=L.where(d),
+              detail=str(fields))
+    rep.check("filename" in kinds, "R15.1", d.qualname, "the complete file "
+              "name (with its extension) is hashed: the module's __filename "
+              "is that of the template it is used for",
+              construct="base:filename-hashed", where=L.where(d),
+              detail=str(kinds))
+    okord = bool(fields) and fields[-1][0] == "body" and all(
+        term for k, term, _, _ in fields[:-1])
+    rep.check(okord, "R15.1", d.qualname, "the hashed byte sequence is "
+              "unambiguous: every field before the body ends with a "
+              "terminator and the body comes last (class 'Template' + body "
+              "'X'+'Page' must not equal class 'PageTemplate' + body 'X')",
+              construct="base:unambiguous", where=L.where(d),
+              detail=str(fields))
+    rep.check(not any(lossy for _, _, lossy, _ in fields), "R15.1",
+              d.qualname, "text is encoded for hashing without dropping or "
+              "replacing characters", construct="base:lossless-encoding",
+              where=L.where(d), detail=str(fields))
+    # a configuration callable has a process-independent name only if it is
+    # a module-level object: closures and lambdas of one factory share their
+    # qualified name
+    sn = repo.func("chameleon.zpt.template._stable_name")
+    tsn = L.text(sn.node)
+    guards = [src(n.test) for n in ast.walk(sn.node) if isinstance(n, ast.If)]
+    okc = any("__closure__" in g and "'<'" in g for g in guards)
+    rep.check(okc, "R15.1", sn.qualname, "module.qualname is used as a "
+              "value's name only for module-level objects (no '<locals>' / "
+              "'<lambda>' in the qualified name, no closure); anything else "
+              "falls back to a representation that cannot give a wrong hit",
+              construct="stable-name-module-level", where=L.where(sn),
+              detail=str(guards))
     # ... the *whole* file name: it is baked into the module (__filename,
     # reported in every error frame), so two files may share a module only
     # if they are the same file
